@@ -405,6 +405,7 @@ package deflate
 //@   ensures[C01 C10 consumed] len(ntokens) <= maxToken ==> (flush ==> nOffset == len(input)) && (!flush ==> nOffset + 8 >= len(input))
 //@   ensures[C01 pos-inv] posInv(table, historySize, processed - old(offset), nOffset, 0)
 //@   ensures[C01 C14 tokens-ok] tokensOK(ntokens)
+//@   ensures@5[C01 C10 tail-literal-count] nOffset - len(ntokens) == atentry(offset) - atentry(len(tokens))
 //@   assert call append 3 [C01 C19 match-token] 3 <= matchLength && matchLength <= 258 && 1 <= dist && int(dist) <= historySize && int(dist) <= offset && offset + matchLength <= len(input)
 //@   assert call compare 1 [C01 first8] forall k :: 0 <= k && k < 8 ==> input[prev+k] == input[offset+k]
 //@   assert call TrailingZeros64 1 [C01 first-ctz] forall k :: 0 <= k && k < ctz64(test)/8 ==> input[prev+k] == input[offset+k]
@@ -422,6 +423,7 @@ package deflate
 //@   loop 3 invariant forall k :: 0 <= k && k < matchLength ==> input[offset-int(dist)+k] == input[offset+k]
 //@   loop 3 invariant tokensOK(tokens) && tokOK(token)
 //@   loop 4 invariant 0 <= i && i <= 3 && posInv(table, historySize, relative, offset, 2)
+//@   loop 5 invariant offset - len(tokens) == atentry(offset) - atentry(len(tokens))
 //@   loop 5 invariant old(offset) <= offset && offset <= len(input) && len(tokens) <= maxToken && sameobj(tokens, old(tokens)) && cap(tokens) == old(cap(tokens)) && len(tokens) >= old(len(tokens)) && posInv(table, historySize, relative, offset, 0) && offset + 8 >= len(input) && tokensOK(tokens)
 
 // ---------------------------------------------------------------------------
